@@ -27,8 +27,8 @@ from gen import gr_resolver_inputs as gr
 from specs import resolver_spec as rs
 
 ID = 'C02'
-LEVEL = 'exploration'
-P_TARGETS = []
+LEVEL = 'other'
+P_TARGETS = ['cgsmiles.graph_utils:merge_graphs']
 BUDGET = {'quick': 30.0, 'thorough': 400.0}
 CHUNK = 40
 BOUNDS = {
